@@ -212,7 +212,13 @@ let () =
         let expected = normalise_couples cp in
         replay id "couples" obs ~enc:(encode_couples cp) ~msg_of_sx:cmsg_of_sx ~dec:decode_couples
           ~res_of_sx:couples_of_sx ~in_domain:dom ~expected ~diff:cp_diff
-          ~classify:(fun got -> "decoded result differs from the input (modulo the unnamed developers' file lists) in: " ^ cp_diff expected got)
+          ~classify:(fun got -> "decoded result differs from the input (modulo the unnamed developers' file lists) in: " ^ cp_diff expected got);
+        (* sortByNumberOfFiles indexes Files with the PeopleFiles entries: the text needs them to be file indexes *)
+        let pf_ok = List.for_all (List.for_all (fun v -> int_of_z v >= 0 && int_of_z v < List.length cp.cp_files))
+                      cp.cp_people_files in
+        (match args (field "text" obs) with
+         | [A "ok"] -> ()
+         | _ -> if dom && pf_ok then propfail id "couples text: Serialize(text) fails on a well-formed result")
     | "matrix" ->
         let m = matrix (arg0 "m" r) in
         let fix = bool_of_sx (arg0 "fix" r) in
